@@ -136,7 +136,7 @@ CHECKS = {
              'comparisons, before any move is tried a node returns the draw value only when it is a drawn non-root node '
              '(decision table over stop, limits, is_draw, is_repeated, root, depth 0), a move\'s line becomes the PV only when '
              'its value exceeds a running maximum raised to it and is not overwritten afterwards, and the score bands satisfy the compiled '
-             'static_assert witness. Truth/minimality of an announced mate is a game-tree fact and is not decided.',
+             'static_assert witness. Truth/minimality of an announced mate is a game-tree fact and is not decided. Pruning skips only quiet moves (a capture can be the one defence against a mate threat).',
         design_ref='DESIGN.md §3 C08',
         note=TB + 'A-LEN: generated list length >= 0; child results are never +-VALUE_INFINITE (established inductively by R1).',
         technique='static: path-sensitive sentinel analysis, sibling-agreement and dominance rules, static_assert witness TU'),
